@@ -469,6 +469,162 @@ def inline_module_constants(tree: ast.Module, new_names: Set[str]) -> int:
     return len(env)
 
 
+# ------------------------------------------------------------------ table-driven dispatch
+class _Beta(ast.NodeTransformer):
+    """(lambda a, b: E)(x, y)  ->  E[a := x, b := y]"""
+
+    def __init__(self) -> None:
+        self.n = 0
+
+    def visit_Call(self, node: ast.Call) -> ast.AST:
+        self.generic_visit(node)
+        f = node.func
+        if isinstance(f, ast.Lambda) and not node.keywords and not any(
+                isinstance(a, ast.Starred) for a in node.args):
+            a = f.args
+            if a.vararg or a.kwarg or a.kwonlyargs or a.defaults or a.posonlyargs:
+                return node
+            params = [x.arg for x in a.args]
+            if len(params) != len(node.args):
+                return node
+            self.n += 1
+            return _SubstNames(dict(zip(params, node.args))).visit(copy.deepcopy(f.body))
+        return node
+
+
+def _loop_level_jumps(body: List[ast.stmt]) -> List[ast.AST]:
+    out: List[ast.AST] = []
+
+    def rec(stmts: List[ast.stmt]) -> None:
+        for st in stmts:
+            if isinstance(st, (ast.Break, ast.Continue)):
+                out.append(st)
+            elif isinstance(st, (ast.For, ast.While, ast.FunctionDef, ast.AsyncFunctionDef,
+                                 ast.ClassDef)):
+                # break / continue in a nested loop belong to that loop (its else part not)
+                if isinstance(st, (ast.For, ast.While)):
+                    rec(st.orelse)
+            else:
+                for fld in ("body", "orelse", "finalbody"):
+                    rec(getattr(st, fld, []) or [])
+                for h in getattr(st, "handlers", []) or []:
+                    rec(h.body)
+    rec(body)
+    return out
+
+
+def unroll_table_loops(tree: ast.Module, new_globals: Set[str]) -> int:
+    """`for pred, handler in TABLE: if pred(x): y = handler(x); break  else: <fallback>` over a
+    NEW module-level table of literal rows is the if/elif chain it replaced: unroll the loop
+    (sequentially when the body has no break / continue, as a chain when the only jump is a
+    `break` that ends a top-level `if` of the body), substitute the row into the body and
+    beta-reduce lambdas."""
+    tables: Dict[str, ast.AST] = {}
+    for st in tree.body:
+        tgt = val = None
+        if isinstance(st, ast.Assign) and len(st.targets) == 1:
+            tgt, val = st.targets[0], st.value
+        elif isinstance(st, ast.AnnAssign) and st.value is not None:
+            tgt, val = st.target, st.value
+        if isinstance(tgt, ast.Name) and tgt.id in new_globals and isinstance(
+                val, (ast.Tuple, ast.List)) and val.elts and not any(
+                    isinstance(e, ast.Starred) for e in val.elts):
+            stores = [x for x in ast.walk(tree) if isinstance(x, ast.Name) and x.id == tgt.id and
+                      isinstance(x.ctx, (ast.Store, ast.Del))]
+            if len(stores) == 1 and not _mutated(tree, tgt.id, val):
+                tables[tgt.id] = val
+    if not tables:
+        return 0
+    done = 0
+
+    def rows_for(target: ast.AST, table: ast.AST) -> Optional[List[Dict[str, ast.AST]]]:
+        out = []
+        for row in table.elts:  # type: ignore[attr-defined]
+            if isinstance(target, ast.Name):
+                out.append({target.id: row})
+            elif isinstance(target, (ast.Tuple, ast.List)) and all(
+                    isinstance(e, ast.Name) for e in target.elts) and isinstance(
+                        row, (ast.Tuple, ast.List)) and len(row.elts) == len(target.elts):
+                out.append({e.id: r for e, r in zip(target.elts, row.elts)})  # type: ignore
+            else:
+                return None
+        return out
+
+    def inst(stmts: List[ast.stmt], env: Dict[str, ast.AST]) -> List[ast.stmt]:
+        b = _Beta()
+        return [b.visit(_SubstNames(env).visit(copy.deepcopy(s))) for s in stmts]
+
+    def rewrite(block: List[ast.stmt]) -> None:
+        nonlocal done
+        i = 0
+        while i < len(block):
+            st = block[i]
+            for fld in ("body", "orelse", "finalbody"):
+                sub_ = getattr(st, fld, None)
+                if isinstance(sub_, list) and not isinstance(st, (ast.ClassDef,)):
+                    rewrite(sub_)
+            for h in getattr(st, "handlers", []) or []:
+                rewrite(h.body)
+            if isinstance(st, ast.For) and isinstance(st.iter, ast.Name) and \
+                    st.iter.id in tables and len(tables[st.iter.id].elts) <= 16:
+                rows = rows_for(st.target, tables[st.iter.id])
+                tnames = {n.id for n in ast.walk(st.target) if isinstance(n, ast.Name)}
+                # the loop variables must not be used after the loop or assigned in the body
+                assigned = any(isinstance(x, ast.Name) and x.id in tnames and isinstance(
+                    x.ctx, (ast.Store, ast.Del)) for s in st.body for x in ast.walk(s))
+                later = any(isinstance(x, ast.Name) and x.id in tnames
+                            for s in block[i + 1:] + st.orelse for x in ast.walk(s))
+                jumps = _loop_level_jumps(st.body)
+                # `if not c: continue` + S + `break`  ==  `if c: S; break`
+                if len(jumps) == 2 and isinstance(st.body[0], ast.If) and not st.body[0].orelse \
+                        and len(st.body[0].body) == 1 and st.body[0].body[0] is jumps[0] and \
+                        isinstance(jumps[0], ast.Continue) and st.body[-1] is jumps[1] and \
+                        isinstance(jumps[1], ast.Break) and len(st.body) >= 2:
+                    t0 = st.body[0].test
+                    neg = t0.operand if isinstance(t0, ast.UnaryOp) and isinstance(
+                        t0.op, ast.Not) else ast.UnaryOp(op=ast.Not(), operand=t0)
+                    st.body = [ast.copy_location(ast.If(test=neg, body=st.body[1:], orelse=[]),
+                                                 st.body[0])]
+                    ast.fix_missing_locations(st)
+                    jumps = _loop_level_jumps(st.body)
+                new: Optional[List[ast.stmt]] = None
+                if rows is not None and not assigned and not later:
+                    if not jumps:
+                        new = []
+                        for env in rows:
+                            new += inst(st.body, env)
+                        new += st.orelse
+                    elif len(jumps) == 1 and isinstance(jumps[0], ast.Break) and isinstance(
+                            st.body[-1], ast.If) and not st.body[-1].orelse and \
+                            st.body[-1].body and st.body[-1].body[-1] is jumps[0]:
+                        tail: List[ast.stmt] = list(st.orelse)
+                        for env in reversed(rows):
+                            body_i = inst(st.body, env)
+                            cond = body_i[-1]
+                            assert isinstance(cond, ast.If)
+                            cond.body = cond.body[:-1] or [ast.Pass()]
+                            cond.orelse = tail
+                            tail = body_i
+                        new = tail
+                if new is not None:
+                    for s in new:
+                        for x in ast.walk(s):
+                            if not hasattr(x, "lineno"):
+                                ast.copy_location(x, st)
+                    block[i:i + 1] = new or [ast.Pass()]
+                    done += 1
+                    i += len(new) or 1
+                    continue
+            i += 1
+
+    for node in ast.walk(tree):
+        if isinstance(node, (ast.FunctionDef, ast.AsyncFunctionDef)):
+            rewrite(node.body)
+    if done:
+        ast.fix_missing_locations(tree)
+    return done
+
+
 # ------------------------------------------------------------------ new helpers
 def _strip_doc(body: List[ast.stmt]) -> List[ast.stmt]:
     if body and isinstance(body[0], ast.Expr) and isinstance(body[0].value, ast.Constant) and \
@@ -915,6 +1071,14 @@ def _hoist_test_calls(fn: ast.AST, helpers, cls, counter: List[int]) -> int:
 
 def _inline_proc_calls(fn: ast.AST, helpers, cls, counter: List[int]) -> int:
     n = _hoist_test_calls(fn, helpers, cls, counter)
+    # names the caller already uses: a local of an inlined helper keeps its own name unless it
+    # clashes with one of these
+    caller_names: Set[str] = {x.id for x in _walk_scope(fn) if isinstance(x, ast.Name)}
+    a_ = fn.args  # type: ignore[attr-defined]
+    caller_names |= {x.arg for x in a_.posonlyargs + a_.args + a_.kwonlyargs}
+    for v_ in (a_.vararg, a_.kwarg):
+        if v_ is not None:
+            caller_names.add(v_.arg)
     for block in list(_blocks(fn)):
         i = 0
         while i < len(block):
@@ -1001,6 +1165,41 @@ def _inline_proc_calls(fn: ast.AST, helpers, cls, counter: List[int]) -> int:
             pre: List[ast.stmt] = []
             # `x = helper(x, ...)`: the helper's parameter is the caller's variable
             same: Dict[str, str] = {}
+            if how == "assign" and len(st.targets) == 1 and isinstance(
+                    st.targets[0], ast.Tuple) and all(isinstance(e_, ast.Name)
+                                                      for e_ in st.targets[0].elts):
+                # `a, b = helper(...)` where every return of the helper is `return x, y` with
+                # helper locals x, y: x is the caller's a, y the caller's b
+                tnames = [e_.id for e_ in st.targets[0].elts]
+                rets_ = [x for b_ in body for x in _walk_scope(b_) if isinstance(x, ast.Return)]
+                shapes = {tuple(e_.id for e_ in r_.value.elts) if isinstance(
+                    r_.value, ast.Tuple) and all(isinstance(e_, ast.Name) for e_ in r_.value.elts)
+                    else None for r_ in rets_}
+                if len(shapes) == 1 and None not in shapes:
+                    rn = list(shapes.pop())
+                    inner = {x.id for b_ in body for x in _walk_scope(b_)
+                             if isinstance(x, ast.Name)}
+                    if len(rn) == len(tnames) == len(set(rn)) and all(
+                            r_ in stored and r_ not in env for r_ in rn) and all(
+                                t_ == r_ or t_ not in inner for t_, r_ in zip(tnames, rn)) and \
+                            not any(isinstance(x, ast.Name) and x.id in tnames
+                                    for v in env.values() for x in ast.walk(v)):
+                        for t_, r_ in zip(tnames, rn):
+                            same[r_] = t_
+            if how == "assign" and len(st.targets) == 1 and isinstance(st.targets[0], ast.Name):
+                # `v = helper(...)` where every return of the helper is `return r` with one
+                # helper local r: r is the caller's v
+                rets_ = [x for b_ in body for x in _walk_scope(b_) if isinstance(x, ast.Return)]
+                rn_ = {x.value.id if isinstance(x.value, ast.Name) else None for x in rets_}
+                if len(rn_) == 1 and None not in rn_:
+                    r_ = rn_.pop()
+                    t_ = st.targets[0].id
+                    inner = {x.id for b_ in body for x in _walk_scope(b_)
+                             if isinstance(x, ast.Name)}
+                    if r_ in stored and r_ not in env and (t_ == r_ or t_ not in inner) and \
+                            not any(isinstance(x, ast.Name) and x.id == t_
+                                    for v in env.values() for x in ast.walk(v)):
+                        same[r_] = t_
             if how == "assign" and len(st.targets) == 1 and isinstance(st.targets[0], ast.Name):
                 tname = st.targets[0].id
                 for p in list(env):
@@ -1038,7 +1237,10 @@ def _inline_proc_calls(fn: ast.AST, helpers, cls, counter: List[int]) -> int:
                     pre.append(ast.Assign(targets=[ast.Name(id=p + suffix, ctx=ast.Store())],
                                           value=copy.deepcopy(env[p])))
                     env[p] = ast.Name(id=p + suffix, ctx=ast.Load())
-            ren = {nm: (same[nm] if nm in same else nm + suffix) for nm in stored}
+            ren = {nm: (same[nm] if nm in same else
+                        (nm + suffix if nm in caller_names or nm in env else nm))
+                   for nm in stored}
+            caller_names |= set(ren.values())
             for p in same:
                 env.pop(p, None)
                 if p not in stored:
@@ -1074,6 +1276,12 @@ def _inline_proc_calls(fn: ast.AST, helpers, cls, counter: List[int]) -> int:
                         if len(node.targets) == 1 and isinstance(node.targets[0], ast.Name) and \
                                 isinstance(node.value, ast.Name) and \
                                 node.value.id == node.targets[0].id:
+                            return ast.Pass()
+                        if len(node.targets) == 1 and isinstance(
+                                node.targets[0], ast.Tuple) and isinstance(
+                                    node.value, ast.Tuple) and [
+                                        ast.unparse(e_) for e_ in node.targets[0].elts] == [
+                                            ast.unparse(e_) for e_ in node.value.elts]:
                             return ast.Pass()
                         return node
                 new = [_DropSelf().visit(s_) for s_ in new]
@@ -1116,8 +1324,12 @@ def _inline_proc_calls(fn: ast.AST, helpers, cls, counter: List[int]) -> int:
             if how == "stmt":
                 pass
             elif how == "assign":
-                new.append(ast.Assign(targets=st.targets, value=ret if ret is not None else
-                                      ast.Constant(value=None)))
+                tg_txt = [ast.unparse(e_) for e_ in getattr(st.targets[0], "elts", [st.targets[0]])]
+                rt_txt = [ast.unparse(e_) for e_ in getattr(ret, "elts", [ret])] \
+                    if ret is not None else None
+                if not (len(st.targets) == 1 and tg_txt == rt_txt):
+                    new.append(ast.Assign(targets=st.targets, value=ret if ret is not None else
+                                          ast.Constant(value=None)))
             elif how == "return":
                 new.append(ast.Return(value=ret))
             elif how == "arg0":
